@@ -173,6 +173,10 @@ class _Tomos(frames._Generic):
     def __sym_len__(self):
         return self.n
 
+    def __getitem__(self, k):
+        # some element of the list, not known to be the one of the current iteration
+        return SV(ctx().fresh("tomogram_at", "Real"))
+
     def __generic_for__(self, interp, st, env):
         from vfw.models import kernels
 
@@ -294,6 +298,168 @@ class WedgeListSgBatch(Contract):
     def replay(self, clause, model, cfg):
         from rtc import c17 as r
         return r.replay_kind("wedge_sg")
+
+
+
+class _TiltsOf:
+    """ioutils.tlt_load(<tilt file>): the tilt angles of one file; min / max are uninterpreted functions of the file"""
+
+    def __init__(self, src):
+        self.src, self.cast = src, None
+
+    def astype(self, t, *a, **k):
+        self.cast = t
+        return self
+
+
+class _EmTable(frames._Generic):
+    def __init__(self, columns):
+        self.columns0, self.cols, self.order = list(columns), {}, []
+
+    def __setitem__(self, k, v):
+        self.cols[k] = v
+        self.order.append(k)
+
+    def to_numpy(self, *a, **k):
+        return _NumpyOf(self)
+
+
+class _NumpyOf:
+    """table.to_numpy(): (rows, cols) array of the table's columns at the time of the call"""
+
+    def __init__(self, table):
+        self.src = ("to_numpy", table, dict(table.cols))
+        self.shape = ("rows", "cols")
+
+    def reshape(self, shape, *a, **k):
+        return _Reshaped(self.src, tuple(shape))
+
+
+class _Reshaped:
+    def __init__(self, src, shape):
+        self.src, self.shape_arg, self.cast = src, shape, None
+
+    def astype(self, t, *a, **k):
+        self.cast = t
+        return self
+
+
+class WedgeListEmBatch(Contract):
+    """create_wedge_list_em_batch, one arbitrary tomogram of its loop: the tilt file is the pattern with THAT tomogram's number, exactly one
+    minimum and one maximum of ITS tilt angles are appended (so row i of min_angle / max_angle belongs to tomogram i), the table's columns are
+    (tomo_num, min_angle, max_angle) in that order, and the EM file (when requested) is written from the finished table as (1, n, 3) float32"""
+    prop = "C17"
+    module = "wedgeutils"
+    qual = "create_wedge_list_em_batch"
+    configs = [{"out": False}, {"out": True}]
+
+    def cfg_name(self, cfg):
+        return f"output_file={cfg['out']}"
+
+    def bind(self, cx, cfg):
+        import numpy as _np
+        tomos = _Tomos()
+        rec = {"loaded": [], "written": [], "tables": []}
+
+        class Io:
+            @staticmethod
+            def tlt_load(x, **k):
+                rec["loaded"].append(x)
+                return tomos if isinstance(x, str) else _TiltsOf(x)
+
+            @staticmethod
+            def fileformat_replace_pattern(fmt, num, letter, **k):
+                return ("file", fmt, num, letter)
+
+        class PD:
+            @staticmethod
+            def DataFrame(*a, columns=None, **k):
+                if a or k or columns is None:
+                    raise sym.Unsupported("DataFrame form")
+                t = _EmTable(columns)
+                rec["tables"].append(t)
+                return t
+
+        base = npm.NP()
+
+        class NPx:
+            single = _np.single
+
+            def __getattr__(self, n):
+                return getattr(base, n)
+
+            @staticmethod
+            def min(x, *a, **k):
+                if isinstance(x, _TiltsOf) and not a and not k:
+                    return ("min", x)
+                raise sym.Unsupported("np.min form")
+
+            @staticmethod
+            def max(x, *a, **k):
+                if isinstance(x, _TiltsOf) and not a and not k:
+                    return ("max", x)
+                raise sym.Unsupported("np.max form")
+
+            @staticmethod
+            def asarray(x, *a, **k):
+                if isinstance(x, kernels.SiteList) and not a and not k:
+                    return x
+                raise sym.Unsupported("np.asarray form")
+
+        class Em:
+            @staticmethod
+            def write(path, arr, header=None, overwrite=False, **k):
+                rec["written"].append((path, arr, header, overwrite))
+
+        g = common.base_globals()
+        g.update({"ioutils": Io, "pd": PD, "np": NPx(), "emfile": Em})
+        it = Interp("wedgeutils", g, contracts={})
+        f = it.function("create_wedge_list_em_batch")
+
+        def thunk():
+            rec["loaded"], rec["written"], rec["tables"] = [], [], []
+            r = f("tomo_list", "tlt_$xxx", output_file=("wl.em" if cfg["out"] else None))
+            return dict(rec, ret=r)
+        return thunk, {"tomos": tomos}
+
+    def post(self, cx, cfg, inp, res):
+        tomos, t = inp["tomos"], inp["tomos"].t
+        tb = res["tables"][0] if len(res["tables"]) == 1 else None
+        cl = [("one_table_with_the_three_em_columns_returned", z3.BoolVal(tb is not None and res["ret"] is tb and tb.columns0 == ["tomo_num", "min_angle", "max_angle"]
+                                                                           and sorted(tb.cols) == sorted(tb.columns0)))]
+        if tb is None or sorted(tb.cols) != sorted(tb.columns0):
+            return cl
+        cl.append(("tomogram_column_is_the_requested_list_in_order", z3.BoolVal(tb.cols["tomo_num"] is tomos and res["loaded"][:1] == ["tomo_list"])))
+
+        def one(col, kind):
+            v = tb.cols[col]
+            if not isinstance(v, kernels.SiteList) or len(v.sites) != 1:
+                return False
+            s = v.sites[0]
+            val = s.value
+            if not (isinstance(val, tuple) and len(val) == 2 and val[0] == kind and isinstance(val[1], _TiltsOf)):
+                return False
+            src = val[1].src
+            # appended on every iteration (no branch condition beyond the loop domain), from this tomogram's file
+            unconditional = len(s.facts) == len(s.domain)
+            return unconditional and isinstance(src, tuple) and src[:2] == ("file", "tlt_$xxx") and src[2] is t and src[3] == "x"
+        cl.append(("min_angle_row_is_the_minimum_of_this_tomograms_tilt_file", z3.BoolVal(one("min_angle", "min"))))
+        cl.append(("max_angle_row_is_the_maximum_of_this_tomograms_tilt_file", z3.BoolVal(one("max_angle", "max"))))
+        if cfg["out"]:
+            w = res["written"]
+            ok = len(w) == 1 and w[0][0] == "wl.em" and w[0][3] is True
+            if ok:
+                arr = w[0][1]
+                ok = getattr(arr, "cast", None) is __import__("numpy").single and isinstance(arr.src, tuple) and arr.src[0] == "to_numpy" and arr.src[1] is tb \
+                    and sorted(arr.src[2]) == sorted(tb.columns0) and arr.shape_arg == (1, "rows", "cols")
+            cl.append(("em_file_written_from_the_finished_table_as_1_n_3_float32", z3.BoolVal(bool(ok))))
+        else:
+            cl.append(("no_file_written_without_output_file", z3.BoolVal(res["written"] == [])))
+        return cl
+
+    def replay(self, clause, model, cfg):
+        from rtc import c17 as r
+        return r.replay_kind("wedge_em")
 
 
 # ---------------------------------------------------------------------------------------------------------------------------------
@@ -582,7 +748,7 @@ class MdocSortByTilt(Contract):
         return r.replay_kind("mdoc_ops")
 
 
-CONTRACTS = [GctfRead, Ctffind4Read, WedgeListSg, WedgeListSgBatch, MdocRemoveImages, MdocSortByTilt]
+CONTRACTS = [GctfRead, Ctffind4Read, WedgeListSg, WedgeListSgBatch, WedgeListEmBatch, MdocRemoveImages, MdocSortByTilt]
 LEVEL = "other"
 EXPLANATION = ("Deductive part: the defocus loaders' arithmetic on the generic row (Angstrom -> micrometre, mean = (U+V)/2, copied astigmatism / phase shift, 0 when the phase column is absent) and the row pairing of "
                "create_wedge_list_sg (i-th tilt with i-th defocus and exposure, per-tomogram constants, one row per tilt, length mismatch rejected); for an arbitrary tomogram of create_wedge_list_sg_batch's loop the call of "
